@@ -140,9 +140,21 @@ def gen_subject(ch, sid, tier, chosen):
             outs.append("rtimg")
         if ch.chance(1, 6, "plink"):
             outs.append("plink")
+        lay = ch.weighted([3, 2, 1], "layout")
+        extra = None
+        if lay == 2 and base_of(t) in ("x86_64", "arm", "riscv", "xtensa"):
+            # a layout that places only `code`: everything else, including a
+            # few hand written sections, stays outside every memory
+            names = ch.perm(["vectors", "bootinfo", "extra1", "zz_last"],
+                            "loosenames")[: 2 + ch.draw(3, "nloose")]
+            extra = "".join(f"section {nm}\ndd {ch.draw(1 << 30, 'loosew')}\n"
+                            for nm in names)
+            for k in ("exe", "img"):
+                if k not in outs and ch.chance(1, 2, "looseout"):
+                    outs.append(k)
         ops.append({"id": f"s{sid}-{t}-O{opt}", "src": src, "march": t,
                     "opt": opt, "debug": bool(ch.chance(1, 3, "debug")),
-                    "layout": ch.weighted([2, 1], "layout"),
+                    "layout": lay, "extra_asm": extra,
                     "entry": f"{fnp}0", "outputs": outs})
     return ops
 
@@ -198,9 +210,15 @@ def gen_asm_generic(ch):
             if ch.chance(1, 3, "gglobal"):
                 lines.append(f"global {name}")
             lines.append(f"{name}:")
-            if ch.chance(1, 12, "gasmerror"):
-                lines.append(ch.pick(["repeat 3", "bogus_mnemonic 1, 2",
-                                      "dd", "endrepeat"], "gerrline"))
+            if ch.chance(1, 6, "gasmerror"):
+                err = ch.pick(["repeat 3", "repeat 2", "bogus_mnemonic 1, 2",
+                               "dd", "endrepeat"], "gerrline")
+                lines.append(err)
+                if err.startswith("repeat"):
+                    # the source ends (or fails) inside the repeat block
+                    lines.append(f"dd {ch.draw(1 << 30, 'gerrword')}")
+                    if ch.chance(1, 2, "gerrinside"):
+                        lines.append("bogus_mnemonic 3")
             if ch.chance(1, 4, "grepeat"):
                 # assembler macro state (recording / repeat count)
                 lines.append(f"repeat {1 + ch.draw(4, 'grepn')}")
@@ -215,8 +233,32 @@ def gen_asm_generic(ch):
     return "\n".join(lines) + "\n"
 
 
+with open(os.path.join(os.path.dirname(HERE), "sim", "asm_pool.json")) as _f:
+    ASM_POOL = json.load(_f)  # per target: instruction lines that assemble
+
+
+def gen_asm_instr(ch, target):
+    """Assembly made of real instructions of the target (taken from a pool of
+    lines the target's assembler accepts), a few labels and data."""
+    pool = ASM_POOL[target]
+    lines = ["section code", "lab0:"]
+    for _ in range(3 + ch.draw(12, "ninstr")):
+        lines.append(ch.pick(pool, "instr"))
+        if ch.chance(1, 8, "instrdata"):
+            lines.append(f"dd {ch.draw(1 << 30, 'instrword')}")
+    lines.insert(2 + ch.draw(len(lines) - 1, "lab1pos"), "lab1:")
+    return "\n".join(lines) + "\n"
+
+
 def gen_asm_ops(ch, b, chosen):
     ops = []
+    icands = [t for t in chosen if base_of(t) in ASM_POOL
+              and ASM_POOL[base_of(t)] and t != "arm:thumb"]
+    for n in range(ch.weighted([2, 3, 2], "niasm") if icands else 0):
+        t = ch.pick(icands, "iasmtarget")
+        ops.append({"id": f"iasm{b}.{n}-{t}", "lang": "asm",
+                    "src": gen_asm_instr(ch, base_of(t)), "march": t,
+                    "opt": 0, "outputs": ["obj"]})
     for n in range(ch.weighted([3, 2, 1], "nasm")):
         ops.append({"id": f"asm{b}.{n}-arm", "lang": "asm",
                     "src": gen_asm_arm(ch), "march": "arm", "opt": 0,
@@ -271,6 +313,29 @@ def gen_other_lang_ops(ch, b, chosen):
         outs = ["obj"] + (["rtimg"] if ch.chance(1, 3, "otherrt") else [])
         ops.append({"id": f"{lang}{b}.{n}-{t}-O{opt}", "lang": lang,
                     "src": src, "march": t, "opt": opt, "outputs": outs})
+    return ops
+
+
+def gen_file_ops(ch, b, chosen):
+    """C translation units in real files that #include a header standing next
+    to them; different subjects use the same header *name* with different
+    contents (in different directories)."""
+    ops = []
+    cands = [t for t in chosen if base_of(t) in RICH]
+    for n in range(ch.weighted([2, 2, 1], "nfileops") if cands else 0):
+        t = ch.pick(cands, "filetarget")
+        hdr = (f"#define HV {ch.draw(1000, 'hv')}\n"
+               f"#define HADD(x) ((x) + {ch.draw(50, 'hadd')})\n"
+               f"int hg{ch.draw(3, 'hgname')};\n")
+        body = gen_unit(ch, "basic", fn_prefix="u", glob_prefix="w")
+        main = '#include "cfg.h"\n' + body + \
+            "int useh(int a) { return HADD(a) + HV; }\n"
+        opt = ch.pick(OPTS, "fileopt")
+        ops.append({"id": f"file{b}.{n}-{t}-O{opt}", "lang": "c",
+                    "files": {"cfg.h": hdr, "main.c": main}, "main": "main.c",
+                    "src": main, "march": t, "opt": opt,
+                    "debug": bool(ch.chance(1, 3, "filedebug")),
+                    "outputs": ["obj"]})
     return ops
 
 
@@ -332,6 +397,7 @@ def gen_batch(seed, b):
     ops += gen_project_ops(ch, b, chosen)
     ops += gen_c3_ops(ch, b, chosen)
     ops += gen_other_lang_ops(ch, b, chosen)
+    ops += gen_file_ops(ch, b, chosen)
     runs = []
     k = 4
     for r in range(k):
@@ -623,6 +689,21 @@ def main():
     seed = report.env_seed()
     sw = report.Stopwatch()
     sys.path.insert(0, report.REPO)
+    # subjects that live in real files are written below one scratch root per
+    # run of this check (outside /repo and /verif), removed at the end
+    own_scratch = "VERIF_C30_SCRATCH" not in os.environ
+    if own_scratch:
+        os.environ["VERIF_C30_SCRATCH"] = \
+            f"/var/tmp/ppci-verif-c30-files-{os.getpid()}"
+    try:
+        return _main(args, tier, seed, sw)
+    finally:
+        if own_scratch:
+            shutil.rmtree(os.environ["VERIF_C30_SCRATCH"],
+                          ignore_errors=True)
+
+
+def _main(args, tier, seed, sw):
     try:
         if args.replay:
             return replay(args.replay)
